@@ -351,6 +351,32 @@ func Run(toks []int, budget int) (res string) {
 	}
 	return strings.Join(append([]string{fmt.Sprintf("%s r=%d", head, lex.reads)}, p.log...), " ; ")
 }
+
+// Runner returns a function that parses with ONE parser value, used again for every call (the
+// caller's own log and budget are reset; whatever the generated parser keeps in its embedded
+// struct between two calls of parse is kept).
+func Runner() func(toks []int, budget int) string {
+	p := &parserT{}
+	return func(toks []int, budget int) (res string) {
+		lex := &scripted{toks: toks, budget: budget}
+		p.log, p.steps, p.budget = nil, 0, budget
+		defer func() {
+			if e := recover(); e != nil {
+				if _, ok := e.(budgetExceeded); ok {
+					res = "timeout"
+				} else {
+					res = "panic"
+				}
+			}
+		}()
+		ok := p.parse(lex)
+		head := "rej"
+		if ok {
+			head = "acc"
+		}
+		return strings.Join(append([]string{fmt.Sprintf("%s r=%d", head, lex.reads)}, p.log...), " ; ")
+	}
+}
 `
 
 // ---- random generation ----
